@@ -618,7 +618,16 @@ func storyRandom(st *story, steps int) {
 	}
 }
 
-func gen(r *vlib.R, n int, tier string, emit func(string)) {
+func gen(r0 *vlib.R, n int, tier string, emit func(string)) {
+	// vlib.NewR(seed) starts the splitmix stream at seed*phi: the streams of
+	// consecutive seeds are one draw apart and re-synchronise. Re-seed from a
+	// mixed value so that different VERIF_SEEDs give unrelated runs (still a
+	// pure function of the seed).
+	x := r0.U64()
+	x ^= x >> 29
+	x *= 0xD6E8FEB86659FD93
+	x ^= x >> 32
+	r := vlib.NewR(x)
 	findSpecials()
 	count := 0
 	wrap := func(s string) { emit(s); count++ }
